@@ -40,6 +40,15 @@ def run(tier):
         for rep in range(reps):
             p = vlib.run_cmd([bins["vh_lib"], "codec-cases", cpath, opath, str(vlib.seed() + rep)], timeout=3000)
             if p.returncode != 0:
+                cur = opath + ".cur"
+                if (p.returncode < 0 or p.returncode == 134) and os.path.exists(cur):
+                    d = json.load(open(cur))
+                    c = d["c"]
+                    vd.violation(f"abort-{c['kind']}-inner{d['inner_len_index']}",
+                                 f"decoding a well-framed {c['kind']} message whose inner length prefix is absurd killed the process "
+                                 f"(status {p.returncode}): " + p.stderr.decode()[-200:].strip(),
+                                 {"kind": "codec-abort", "detail": d})
+                    return vd.finish()
                 raise vlib.ToolError("vh_lib codec-cases failed: " + p.stderr.decode()[-2000:])
             nonconf = 0
             for line in open(opath):
